@@ -88,7 +88,12 @@ def run(ck):
             prelude = ['sinks pipe', 'lean 1', 'cfg ' + H.hx(cfg)]
             ex = hist.Explorer(v['h_exec'], symfile, os.path.join(ck.workdir, '%s-%d' % (vname, dsmax)), prelude,
                                {k: [val[3]] for k, val in L.items()}, warmup=['call execve h2f77 [h77] [] -1 2'])
+            # reference: each letter as the very first wrapped call of a fresh process (no warm-up call before it)
             fresh = {}
+            for a, r0 in zip(L, pmap(lambda a: ex.run_history([a], warm=False), list(L))):
+                c0 = r0['steps'][-1][0]
+                if c0 is not None and r0['ok']:
+                    fresh[a] = H.sink_bytes(c0['logdelta'])
 
             def on_step(h, a, call, r, L=L, dsmax=dsmax, vname=vname, fresh=fresh):
                 fn, p, av, _ = L[a]
@@ -99,9 +104,7 @@ def run(ck):
                     return
                 data = H.sink_bytes(call['logdelta'])
                 bad = check_record(data, p, av, dsmax)
-                if not h:
-                    fresh[a] = data
-                elif a in fresh and data != fresh[a]:
+                if a in fresh and data != fresh[a]:
                     bad.append('differs_from_fresh_process')
                 if call['rec_calls'] != 1:
                     bad.append('rec_calls')
